@@ -91,6 +91,22 @@ func genC10(tier string, rng *Rng) {
 		scs = append(scs, sc)
 		hist["backpressure"]++
 	}
+	// ---- a stall inside a frame WHILE the application writes to the panel: the 2 s limit holds whatever the
+	// writer does to the socket in the meantime (seed C10-9: a write timeout set and cleared with
+	// SetDeadline wipes the read deadline the reader armed for the frame in progress)
+	for _, k := range []int{2, 9} { // stalled inside the header / inside the payload
+		whole := append(hdr(20), 8, 1, 8, 1, 8)
+		cs := ConnScript{Items: []Item{ackItem(), good(3), {Kind: "raw", Data: Lit(whole[:k])}}, Segs: []SegCut{{0, 6}, {60, gl}, {300, k}}, End: "none"}
+		var list []Submission
+		for j := 0; j < 6; j++ {
+			list = append(list, Submission{Msgs: []*rwp.InboundMessage{{FlowMessage: rwp.InboundMessage_PING}}, Delay: 300})
+		}
+		// stall from 300: drop at 2300, reconnect 3300; submissions at 600..2100
+		sc := &Scenario{ID: fmt.Sprintf("stall-while-writing-%d-%d", k, len(scs)), Entry: "client", Conns: []ConnScript{cs, goodConn(1)}, Cancel: 3300 + 700,
+			SubStart: 300, Subs: [][]Submission{list}}
+		scs = append(scs, sc)
+		hist["stall-while-writing"]++
+	}
 	// just below the limit: accepted (allocation), then the payload stalls
 	for _, v := range []uint32{499999, 499998, 70000} {
 		cs := ConnScript{Items: []Item{ackItem(), good(3), {Kind: "raw", Data: Lit(hdr(v))}, good(77)}, Segs: []SegCut{{0, 6}, {60, gl}, {150, 4 + gl}}, End: "none"}
